@@ -175,7 +175,8 @@ class _Deep(ast.NodeTransformer):
         v = self.env.get(n.id)
         if isinstance(v, ast.Call) and norm(v.func) not in DEEP_PURE and not (
                 isinstance(v.func, ast.Attribute) and v.func.attr in ("split", "strip", "replace", "copy", "keys",
-                                                                      "values", "items", "decode", "encode")):
+                                                                      "values", "items", "decode", "encode", "join",
+                                                                      "format", "rstrip", "lstrip", "lower", "upper")):
             return n        # the result of a call into the package / an effectful call keeps its name
         if isinstance(v, ast.AST) and not (isinstance(v, ast.Name) and v.id == n.id):
             import copy as _copy
@@ -636,3 +637,21 @@ def swallowing_handlers(fn_node):
                 if handler_can_complete(h):
                     out.append((n, h))
     return out
+
+
+def is_count_range(iter_node, count_text, containers=()):
+    """the loop runs `count_text` times: `range(count_text)`, or over the length of (one of) the container(s) whose
+    entries it visits — `range(len(C))`, `range(min(len(C1), len(C2)))` with every C in `containers`"""
+    import re as _re
+    t = norm(iter_node)
+    if t == f"range({count_text})":
+        return True
+    m = _re.fullmatch(r"range\(len\((.+)\)\)", t)
+    if m:
+        return m.group(1) in containers
+    m = _re.fullmatch(r"range\(min\((.+)\)\)", t)
+    if m:
+        parts = [x.strip() for x in _re.findall(r"len\(((?:[^()]|\([^()]*\))+)\)", m.group(1))]
+        return bool(parts) and all(x in containers for x in parts)
+    return False
+
